@@ -1,5 +1,8 @@
 // Package simclock is the clock of nsqd's id generator only (guid.go): the
-// driver can step it backwards and forwards relative to the bubble's clock.
+// driver can step it backwards and forwards relative to the bubble's clock,
+// and it can drift forward by itself between any two readings (on a real
+// machine time passes between two instructions of two publishers; in the
+// simulation the bubble's clock stands still while anything is runnable).
 package simclock
 
 import (
@@ -7,11 +10,35 @@ import (
 	"time"
 )
 
-var offset int64
+var (
+	offset     int64
+	driftN     uint64 // 0 = no drift; otherwise one reading in driftN moves the clock one generator tick ahead
+	driftState uint64
+	Drifted    uint64 // number of ticks added by drift (a reach probe)
+)
 
 // SetOffset sets the generator clock's offset from time.Now().
 func SetOffset(d time.Duration) { atomic.StoreInt64(&offset, int64(d)) }
 
+// SetDrift enables (n > 0) or disables (n == 0) the seeded forward drift.
+func SetDrift(seed uint64, n uint64) {
+	atomic.StoreUint64(&driftState, seed)
+	atomic.StoreUint64(&driftN, n)
+}
+
+func mix(z uint64) uint64 {
+	z = (z ^ (z >> 30)) * 0xbf58476d1ce4e5b9
+	z = (z ^ (z >> 27)) * 0x94d049bb133111eb
+	return z ^ (z >> 31)
+}
+
 func Now() time.Time {
+	if n := atomic.LoadUint64(&driftN); n > 0 {
+		s := atomic.AddUint64(&driftState, 0x9e3779b97f4a7c15)
+		if mix(s)%n == 0 {
+			atomic.AddInt64(&offset, 1<<20) // one generator tick
+			atomic.AddUint64(&Drifted, 1)
+		}
+	}
 	return time.Now().Add(time.Duration(atomic.LoadInt64(&offset)))
 }
